@@ -141,7 +141,7 @@ func init() {
 				W:       Weights{"config": 30, "commit": 10, "write": 10, "add-all": 8, "status": 1},
 				Oracles: []HistOracle{orC20}, NoIdent: 60, FreshPct: 100}
 		})
-	checks["C12"] = histCheck("C12", []string{"C12.zone_table", "C12.parse_format", "C12.parse_format_quarter", "C12.email_chars"}, histRule+"; every invocation runs under a generated TZif file for an offset drawn from all quarter hours in [-12:00,+14:00]",
+	checks["C12"] = histCheck("C12", []string{"C12.zone_table", "C12.parse_format", "C12.parse_format_quarter", "C12.commit_parse_format", "C12.email_chars"}, histRule+"; every invocation runs under a generated TZif file for an offset drawn from all quarter hours in [-12:00,+14:00]",
 		func(ctx *Ctx) *HistCfg {
 			var tzs []int
 			for o := -12 * 3600; o <= 14*3600; o += 900 {
